@@ -18,7 +18,9 @@ import pickle
 from io import BytesIO, TextIOWrapper
 import json
 import os
+import functools
 import sys
+import threading
 import traceback
 from abc import ABC, abstractmethod
 from collections import deque, namedtuple
@@ -1066,9 +1068,23 @@ class _CacheEntry:
         self.has_value = has_value
 
 
+def _synchronized(method):
+    """Run the decorated MemoryCache method while holding the cache's lock"""
+
+    @functools.wraps(method)
+    def wrapper(self, *args, **kwargs):
+        with self._lock:
+            return method(self, *args, **kwargs)
+
+    return wrapper
+
+
 class MemoryCache:
     """
-    Write-through memory cache for memoized data
+    Write-through memory cache for memoized data.
+
+    The cache is shared by all threads that call functions of a cluster, so every public
+    method takes the (re-entrant) lock of the cache.
 
     """
 
@@ -1084,6 +1100,7 @@ class MemoryCache:
         self.lru_deque = deque()
         self.cache = dict()
         self.refs = WeakValueDictionary()
+        self._lock = threading.RLock()
 
     @staticmethod
     def _pd_mem_usage(obj: Union[pd.DataFrame, pd.Series]) -> int:
@@ -1185,6 +1202,7 @@ class MemoryCache:
         if cache_key in self.lru_deque:
             self.lru_deque.remove(cache_key)
 
+    @_synchronized
     def get_mementos(
         self, fns: List[FunctionReferenceWithArgHash]
     ) -> List[Optional[Memento]]:
@@ -1199,6 +1217,7 @@ class MemoryCache:
                 result.append(memento)
         return result
 
+    @_synchronized
     def read_result(self, memento: Memento) -> object:
         """Return the memento if it exists in the cache, else raise KeyError"""
         cache_key = self._cache_key_for_memento(memento)
@@ -1212,6 +1231,7 @@ class MemoryCache:
             # return a cached ref if it's still in memory
             return self.refs[cache_key]  # May raise KeyError
 
+    @_synchronized
     def is_memoized(self, fn_reference: FunctionReference, arg_hash: str) -> bool:
         cache_key = self._cache_key_for_fn(fn_reference, arg_hash)
         if cache_key in self.cache:
@@ -1219,6 +1239,7 @@ class MemoryCache:
             return True
         return cache_key in self.refs
 
+    @_synchronized
     def is_all_memoized(self, fns: Iterable[FunctionReferenceWithArguments]) -> bool:
         return all([self.is_memoized(x.fn_reference, x.arg_hash) for x in fns])
 
@@ -1229,6 +1250,7 @@ class MemoryCache:
             # primitives like ints, strs, and dicts can't be weakrefed
             pass
 
+    @_synchronized
     def put(self, memento: Memento, result: object, has_result: bool):
         cache_key = self._cache_key_for_memento(memento)
         if has_result:
@@ -1264,6 +1286,7 @@ class MemoryCache:
         self.lru_deque.append(cache_key)
         self.memory_usage += obj_size
 
+    @_synchronized
     def forget_call(self, fn_with_arg_hash: FunctionReferenceWithArgHash):
         cache_key = self._cache_key_for_fn(
             fn_with_arg_hash.fn_reference, fn_with_arg_hash.arg_hash
@@ -1271,12 +1294,14 @@ class MemoryCache:
         self.refs.pop(cache_key, None)
         self._evict(cache_key)
 
+    @_synchronized
     def forget_everything(self):
         self.memory_usage = 0
         self.cache.clear()
         self.lru_deque.clear()
         self.refs.clear()
 
+    @_synchronized
     def forget_function(self, fn_reference: FunctionReference):
         qualified_name = fn_reference.qualified_name
         qualified_name_slash = qualified_name + "/"
